@@ -210,6 +210,14 @@ func (v *Verifier) registerIfaceColumns() {
 						reg(m.Name(), m.Type().(*types.Signature))
 					}
 				}
+				// function-typed struct fields are abstract callees too (ValidReplayer.Now, Client.OnRetry, ...)
+				if st, ok := tn.Type().Underlying().(*types.Struct); ok {
+					for i := 0; i < st.NumFields(); i++ {
+						if sig, ok := st.Field(i).Type().Underlying().(*types.Signature); ok {
+							reg(st.Field(i).Name(), sig)
+						}
+					}
+				}
 			}
 		}
 	}
@@ -223,7 +231,7 @@ func (v *Verifier) traceColSort(fx *Fx, col string) (string, types.Type) {
 	switch col {
 	case "recv":
 		return SRef, nil
-	case "meth", "iter":
+	case "meth", "iter", "callat":
 		return SInt, types.Typ[types.Int]
 	}
 	if s, ok := v.colSorts[col]; ok {
@@ -323,6 +331,9 @@ func (v *Verifier) verifyFunc(key string) (rep *FuncReport) {
 	rep.Decls = fx.d
 	defer func() {
 		if r := recover(); r != nil {
+			if os.Getenv("GOVC_DEBUG") != "" {
+				fmt.Fprintf(os.Stderr, "%v\n%s\n", r, debug.Stack())
+			}
 			if u, ok := r.(unsupportedErr); ok {
 				rep.Unsupported = u.msg
 			} else if e, ok := r.(error); ok {
@@ -534,7 +545,7 @@ func (v *Verifier) verifyFunc(key string) (rep *FuncReport) {
 		// canary: 'false' must not be provable at the exits (some exit is reachable)
 		if canary == nil {
 			canary = &Obligation{Name: key + "/vacuity:exit_reachable", Kind: "vacuity", Assume: append([]string(nil), fs.pc...), Goal: "false", Func: key, Expect: "not-unsat"}
-		} else if len(canary.Cases) < 40 {
+		} else if len(canary.Cases) < 12 {
 			canary.Cases = append(canary.Cases, OblCase{Assume: append([]string(nil), fs.pc...), Goal: "false"})
 		}
 	}
